@@ -321,10 +321,7 @@ class IntValue(PrimitiveValue):
         elif new_type == DataType.BYTE:
             # Truncate to the low byte, so that 4 / (258 is byte) produces
             # 2, as it would if evaluated at runtime.
-            # TODO: I should also track word size in env and use for
-            #  (signed) wraparound in arithmetic evaluation.
-            #  Also when we create IntValues to begin with...  and maybe
-            #  more places I forget.
+            # (signed) wraparound at the word size is handled by evaluate
             return ByteValue(self.data & 0xFF, self.span, self.shrinkable, self.is_char)
         elif new_type == DataType.INT:
             # Whenever a ByteValue is implicitly coerced to an IntValue,
@@ -348,6 +345,19 @@ class IntValue(PrimitiveValue):
         if self.coercible(new_type):
             return self.cast(new_type, implicit=True)
         return super().coerce(new_type)
+
+    def evaluate(self, env):
+        # Integers are word-sized.  When the word size of the target is
+        # known (word_size option, in bytes), wrap around like the
+        # program would at runtime, so that it makes no difference
+        # whether an expression gets evaluated at compile time.
+        word_size = env.options.get('word_size')
+        if word_size is not None and word_size > 0:
+            half = 1 << (8 * word_size - 1)
+            wrapped = (self.data + half) % (2 * half) - half
+            if wrapped != self.data:
+                return dc.replace(self, data=wrapped)
+        return self
 
     # Substitution makes IntValues no longer be shrinkable and instead
     # act like normal ints in type coercion.
